@@ -571,7 +571,13 @@ namespace xsv
     // time -- about 10^6 times what any call needs -- and is reported like a crash: the record of the executing case becomes a
     // candidate, the worker exits, and the replay (which hangs the same way and is stopped the same way) confirms it.
     // CPU time, not wall-clock time: load on the machine cannot fire it.
-    constexpr int kHangSeconds = 10;
+    constexpr int kHangSecondsDefault = 10;
+    inline int hang_seconds()
+    {
+        static const int v = [] { const char* e = getenv("XSV_HANG_SECONDS"); int k = e ? atoi(e) : 0; return k > 0 ? k : kHangSecondsDefault; }();
+        return v;
+    }
+#define kHangSeconds (::xsv::hang_seconds())
     inline void hang_handler(int)
     {
         static uint64_t last_exec = ~0ull;
